@@ -243,6 +243,9 @@ class SimPool:
         self.fired = []
         self.profile_servers = int((getattr(decider, "profile", None) or {}).get("proc_servers", 2))
         self.stats = {"maps": 0, "chunks": 0, "tasks": 0, "transport": {}, "reordered": 0, "lazy": 0, "dill_multi_task_chunk": 0}
+        # by-value transports model separate worker PROCESSES: what a worker writes into thejoker's module-level
+        # state stays in that worker (overlay per worker id) and is never seen by the parent or by other workers
+        self.worker_overlay = {}
 
     # executor calls this before each op
     def begin_op(self, op_id):
@@ -280,6 +283,87 @@ class SimPool:
             order = list(range(len(tasks)))
         self.stats["imap_unordered"] = self.stats.get("imap_unordered", 0) + 1
         return iter([res[i] for i in order])
+
+    @staticmethod
+    def _module_vars():
+        import sys
+
+        out = {}
+        for name, mod in list(sys.modules.items()):
+            if mod is not None and (name == "thejoker" or name.startswith("thejoker.")) and not name.startswith("thejoker.tests"):
+                for k, x in list(vars(mod).items()):
+                    if not k.startswith("__"):
+                        out[(name, k)] = x
+        return out
+
+    @staticmethod
+    def _is_plain_container(x):
+        return isinstance(x, (list, dict, set)) and len(x) <= 64
+
+    def _enter_worker_space(self, worker):
+        """Install worker `worker`'s private module-level state; return what is needed to leave again."""
+        import copy
+        import sys
+
+        parent = self._module_vars()
+        # in-place edits of small plain containers are detected by value
+        shadow = {}
+        for key, x in parent.items():
+            if self._is_plain_container(x):
+                try:
+                    shadow[key] = copy.deepcopy(x)
+                except Exception:  # noqa: BLE001
+                    pass
+        for (mname, k), x in self.worker_overlay.get(worker, {}).items():
+            setattr(sys.modules[mname], k, x)
+        return parent, shadow
+
+    def _leave_worker_space(self, worker, token):
+        import copy
+        import sys
+
+        parent, shadow = token
+        now = self._module_vars()
+        ov = self.worker_overlay.setdefault(worker, {})
+        for key, x in now.items():
+            if key not in parent or parent[key] is not x:
+                ov[key] = x  # written (rebound / created) while this worker ran: it lives in the worker only
+            elif key in shadow and self._is_plain_container(x):
+                try:
+                    changed = x != shadow[key]
+                except Exception:  # noqa: BLE001
+                    changed = False
+                if changed:
+                    ov[key] = copy.deepcopy(x)
+                    # undo the in-place edit on the parent's object
+                    if isinstance(x, list):
+                        x[:] = shadow[key]
+                    else:
+                        x.clear()
+                        x.update(shadow[key])
+        if ov:
+            self.stats["worker_private_module_state"] = self.stats.get("worker_private_module_state", 0) + 1
+        for (mname, k), x in parent.items():
+            mod = sys.modules.get(mname)
+            if mod is not None and vars(mod).get(k, None) is not x:
+                setattr(mod, k, x)
+        for mname, k in set(now) - set(parent):
+            mod = sys.modules.get(mname)
+            if mod is not None and hasattr(mod, k):
+                delattr(mod, k)
+
+    def _maybe_interleave(self, midx, slot):
+        """A SECOND CALLER (another thread / process sharing the machine) runs a whole call of its own while this pool
+        is in the middle of a map: before chunk `slot` of map `map`, or after the last chunk (slot 'end')."""
+        il = getattr(self, "interleave", None)
+        if not il or il.get("fired") or il.get("map") != midx:
+            return
+        if slot != "end" and slot != il.get("slot"):
+            return
+        il["fired"] = True
+        if self.log is not None:
+            self.log.add("interleave", "second-caller", {"map": midx, "slot": slot})
+        il["fn"]()
 
     def _fault_for(self, kind, **match):
         for f in self.faults:
@@ -359,7 +443,9 @@ class SimPool:
     def _lazy_shared(self, func, tasks, call, key, midx):
         def gen():
             for i, t in enumerate(tasks):
+                self._maybe_interleave(midx, i)
                 yield self._run_task(func, self._wrap_shared(t, key, i), call, key, midx, i, worker=0)
+            self._maybe_interleave(midx, "end")
             if self.log is not None:
                 self.log.add("map-end", key)
 
@@ -405,17 +491,22 @@ class SimPool:
         self.stats["chunks"] += len(bounds)
         multi = self._fault_for("worker", map=midx) or {}
         continue_after = bool(multi.get("continue", transport != "shared"))
-        for ci in decision["order"]:
+        for slot, ci in enumerate(decision["order"]):
             lo, hi = bounds[ci]
             worker = decision["workers"][ci]
+            self._maybe_interleave(midx, slot)
             try:
                 if transport == "shared":
                     for i in range(lo, hi):
                         results[i] = self._run_task(func, self._wrap_shared(tasks[i], key, i), call, key, midx, i, worker)
                 elif transport == "reduce":
                     chunk = self._copy_chunk_reduce(tasks[lo:hi], key, lo)
-                    for j, t in enumerate(chunk):
-                        results[lo + j] = _roundtrip(self._run_task(func, t, call, key, midx, lo + j, worker))
+                    token = self._enter_worker_space(worker)
+                    try:
+                        for j, t in enumerate(chunk):
+                            results[lo + j] = _roundtrip(self._run_task(func, t, call, key, midx, lo + j, worker))
+                    finally:
+                        self._leave_worker_space(worker, token)
                 elif transport == "dill":
                     import dill
 
@@ -431,8 +522,12 @@ class SimPool:
                     payload = dill.dumps((func, tasks[lo:hi]))
                     f2, chunk = dill.loads(payload)
                     chunk = [self._wrap_copy(t, key, lo + j) for j, t in enumerate(chunk)]
-                    for j, t in enumerate(chunk):
-                        results[lo + j] = _roundtrip(self._run_task(f2, t, call, key, midx, lo + j, worker))
+                    token = self._enter_worker_space(worker)
+                    try:
+                        for j, t in enumerate(chunk):
+                            results[lo + j] = _roundtrip(self._run_task(f2, t, call, key, midx, lo + j, worker))
+                    finally:
+                        self._leave_worker_space(worker, token)
                 elif transport == "proc":
                     import dill
 
@@ -460,6 +555,8 @@ class SimPool:
                     first_exc = exc
                 if not continue_after:
                     break
+        if first_exc is None:
+            self._maybe_interleave(midx, "end")
         if self.log is not None:
             self.log.add("map-end", key)
         if first_exc is not None:
